@@ -12,6 +12,8 @@ import os
 import numpy
 import scipy.io as io
 
+from .matrixdata import text_file_ndim, restore_ndim
+
 class DataSaveable:
     """This class defines saving and loading procedure for the data property
     
@@ -146,15 +148,13 @@ class DataSaveable:
         else:
             if len(data.shape) == 2:
                 
-                print("Data shape:", data.shape)
                 if data.shape[1] == 2:
-                    print("Extracting from two columns")
                     # the axis is real also when it was stored with complex 
                     # data
-                    axis.data = numpy.real(data[:,0])
+                    self._set_axis_points(axis, numpy.real(data[:,0]))
                     return data[:,1]
                 elif data.shape[1] > 2:
-                    axis.data = numpy.real(data[:,0])
+                    self._set_axis_points(axis, numpy.real(data[:,0]))
                     return data[:,1:]
                 else:
                     raise Exception()
@@ -163,6 +163,17 @@ class DataSaveable:
                 raise Exception("Other shapes than (N,) and (N,M)"+
                                 " not implemented")
 
+
+
+    def _set_axis_points(self, axis, points):
+        """Makes the axis object the axis of the points read from a file
+        
+        """
+        axis.data = points
+        axis.length = len(points)
+        axis.start = points[0]
+        if len(points) > 1:
+            axis.step = points[1] - points[0]
 
 
     def _saveBinaryData(self, file, with_axis=None):
@@ -216,7 +227,9 @@ class DataSaveable:
             data = self._data_with_axis(with_axis)
             numpy.savetxt(file, data)
         else:
-            numpy.savetxt(file, self.data)
+            # the number of dimensions is written into a comment line
+            numpy.savetxt(file, self.data,
+                          header="ndim %d" % numpy.ndim(self.data))
 
 
     def _importDataFromText(self, filename, with_axis=None):
@@ -225,9 +238,11 @@ class DataSaveable:
         """
         self.set_data_writable()
         try:        
-            _data = numpy.loadtxt(filename)
+            _data = numpy.loadtxt(filename, ndmin=2)
         except ValueError:
-            _data = numpy.loadtxt(filename, dtype=complex)
+            _data = numpy.loadtxt(filename, dtype=complex, ndmin=2)
+        if with_axis is None:
+            _data = restore_ndim(_data, text_file_ndim(filename))
         
         self.data = self._extract_data_with_axis(_data, with_axis)
         self.set_data_protected()            
